@@ -76,8 +76,21 @@ func registerVerifrt(m map[string]modelFn) {
 		return ""
 	}
 	m["verifrt.Symbolic"] = func(fr *frame, a []Value) Value { return smt.True }
-	m["verifrt.Bool"] = func(fr *frame, a []Value) Value { return fr.e.input("", "bool", smt.Bool) }
-	m["verifrt.BoolK"] = func(fr *frame, a []Value) Value { return fr.e.input(key(a, 0), "bool", smt.Bool) }
+	// Bool: an arbitrary boolean decided by forking (both values are feasible for a fresh input, so
+	// no query is needed); SymBool keeps the value symbolic.
+	flip := func(fr *frame, k string) Value {
+		e := fr.e
+		t := e.input(k, "bool", smt.Bool)
+		if e.choose(2, "bool") == 0 {
+			e.addPC(t)
+			return smt.True
+		}
+		e.addPC(smt.Not(t))
+		return smt.False
+	}
+	m["verifrt.Bool"] = func(fr *frame, a []Value) Value { return flip(fr, "") }
+	m["verifrt.BoolK"] = func(fr *frame, a []Value) Value { return flip(fr, key(a, 0)) }
+	m["verifrt.SymBool"] = func(fr *frame, a []Value) Value { return fr.e.input("", "bool", smt.Bool) }
 	intRange := func(fr *frame, k string, lo, hi Value) Value {
 		e := fr.e
 		t := e.input(k, "int", smt.BV(64))
@@ -430,8 +443,14 @@ func registerSync(m map[string]modelFn) {
 		return nil
 	}
 	// sync.Pool: Get calls New (if any); Put drops
+	// sync.Pool: a per-path free list (what Get returns is unspecified anyway)
 	m["(*sync.Pool).Get"] = func(fr *frame, a []Value) Value {
 		p := a[0].(*Value)
+		if free, ok := fr.e.side[p].([]Value); ok && len(free) > 0 {
+			v := free[len(free)-1]
+			fr.e.side[p] = free[:len(free)-1]
+			return v
+		}
 		st := (*p).(Struct)
 		newFn := st[len(st)-1]
 		if isNilFunc(newFn) {
@@ -439,7 +458,12 @@ func registerSync(m map[string]modelFn) {
 		}
 		return fr.e.callValue(fr, newFn, nil)
 	}
-	m["(*sync.Pool).Put"] = func(fr *frame, a []Value) Value { return nil }
+	m["(*sync.Pool).Put"] = func(fr *frame, a []Value) Value {
+		p := a[0].(*Value)
+		free, _ := fr.e.side[p].([]Value)
+		fr.e.side[p] = append(free, a[1])
+		return nil
+	}
 
 	// sync.Map as a side-table Map keyed by receiver
 	smap := func(fr *frame, p *Value) *Map {
